@@ -1,5 +1,6 @@
 SPECIFICATION Spec
 CONSTANTS
+ MaxUpdates = 0
  MaxReinit = 0  FixLostWorker = TRUE
  CountCalls = TRUE
  NW = 3  BS = 3  Total = 10  Chunk = 2  HdrSz = 2  TailSz = 3
